@@ -181,6 +181,7 @@ def run(pid, cfg, a, seed, scratch, t_start):
     base_env.pop("VERIF_REPLAY", None)
 
     tasks = []  # (label, cmd, env, timeout)
+    requested = {}  # rapid shard label -> cases requested
     infra_msgs = []
 
     def add_task(label, binp, args, env_extra, timeout):
@@ -216,7 +217,8 @@ def run(pid, cfg, a, seed, scratch, t_start):
                 binp = need_bin(race=race)
                 for i in range(shards):
                     label = "%s-%d" % (name, i)
-                    args = ["-test.run", "^%s$" % job["test"], "-test.timeout", "%ds" % timeout,
+                    requested[label] = per
+                    args = ["-test.run", "^%s$" % job["test"], "-test.v", "-test.timeout", "%ds" % timeout,
                             "-rapid.checks=%d" % per, "-rapid.seed=%d" % (seed * 10_000_000_000 + i * 100_000_000 + 1),
                             "-rapid.nofailfile", "-rapid.shrinktime=%s" % job.get("shrinktime", "20s")]
                     add_task(label, binp, args,
@@ -273,6 +275,32 @@ def run(pid, cfg, a, seed, scratch, t_start):
         for r in ex.map(runtask, tasks):
             results.append(r)
 
+    # A shard that ended without a verdict (watchdog / timeout / killed / crashed without a failure
+    # record) is an infrastructure outcome. It is re-run once, alone on a quiet machine, before the
+    # run is declared inconclusive: a busy machine must not turn into a non-zero exit.
+    def inconclusive(res):
+        label, rc, to, dt = res
+        if to or rc not in (0, 1):
+            return True
+        if not os.path.exists(os.path.join(out, "evid-%s.json" % label)):
+            return True
+        if rc == 1 and not glob.glob(os.path.join(out, "fail-%s-*.json" % label)) \
+                and not glob.glob(os.path.join(scratch, "cwd-" + label, "testdata", "fuzz", "*", "*")):
+            return True
+        return False
+
+    retry = [i for i, r in enumerate(results) if inconclusive(r)]
+    if retry and not a.replay and len(retry) <= max(4, len(tasks) // 2):
+        for i in retry:
+            label = results[i][0]
+            log("[retry] shard %s ended without a verdict (rc=%s, timeout=%s); running it again alone" % (label, results[i][1], results[i][2]))
+            for fp in glob.glob(os.path.join(out, "*-%s.*" % label)) + glob.glob(os.path.join(out, "*-%s-*" % label)):
+                try:
+                    os.rename(fp, fp + ".first-attempt")
+                except OSError:
+                    pass
+            results[i] = runtask(tasks[i])
+
     # ---- collect ----
     evals = 0
     nt = set()
@@ -326,6 +354,21 @@ def run(pid, cfg, a, seed, scratch, t_start):
             tail = open(lg, errors="replace").read()[-1500:] if os.path.exists(lg) else ""
             infra_msgs.append("%s: exit status %s\n%s" % (label, rc, tail))
 
+    # rapid stops generating at the test deadline and still reports success: record short counts
+    short = {}
+    for label, rc, to, dt in results:
+        if label in requested and rc == 0:
+            lg = os.path.join(out, "log-%s.txt" % label)
+            try:
+                mm = re.findall(r"OK, passed (\d+) tests", open(lg, errors="replace").read())
+            except OSError:
+                mm = []
+            if mm and int(mm[-1]) < requested[label]:
+                short[label] = (int(mm[-1]), requested[label])
+    if short:
+        extra["rapid_short_count_shards"] = {k: "%d of %d cases before the deadline" % v for k, v in sorted(short.items())}
+        log("[note] rapid shards that hit their deadline early: %s" % extra["rapid_short_count_shards"])
+    extra["rapid_cases_requested"] = sum(requested.values())
     # failures
     fails = {}
     for fp in sorted(glob.glob(os.path.join(out, "fail-*.json"))):
